@@ -51,6 +51,10 @@ type Node struct {
 	// Direct: the kids of a lock are the body forms of with-mutex-lock itself
 	// (no unwind-protect/progn between the form and an exit that leaves it)
 	Direct bool `json:"direct,omitempty"`
+	// ResKid: the last kid of a dolist/dotimes/do is the loop's result form
+	ResKid bool `json:"res_kid,omitempty"`
+	// CKid: the last kid of an unwind-protect is one of its cleanup forms
+	CKid bool `json:"c_kid,omitempty"`
 }
 
 // tag is the name of the tag in front of kid j (j >= 1) of a tagbody or of a
@@ -66,7 +70,24 @@ func (n *Node) tag(j int) string {
 func (n *Node) tagged() bool { return n.K == "tagbody" || n.K == "prog" || n.Tags }
 
 // loopKind reports whether n establishes a nil block (and an implicit tagbody).
-func loopKind(k string) bool { return k == "dolist" || k == "dotimes" || k == "do" || k == "prog" }
+func loopKind(k string) bool {
+	switch k {
+	case "dolist", "dotimes", "do", "prog", "dostar", "progstar", "dovector", "loop":
+		return true
+	}
+	return false
+}
+
+// plainKinds are forms that evaluate their kids in order as body forms and
+// are otherwise transparent to an exit (added in the last session: the
+// property speaks of "nested binding, conditional and iteration forms", not
+// only of the ones its quantifier lists).
+var plainKinds = []string{"seq", "let", "when", "unless", "cond", "lambda", "send",
+	"case", "ecase", "casedef", "typecase", "etypecase", "progv", "wots", "wifs", "wos", "letstar", "mvb", "or", "and",
+	"prog1", "prog2", "mvp1", "wslots", "wifo"}
+
+var loopKinds = []string{"dolist", "dotimes", "do", "prog", "dostar", "progstar", "dovector", "loop"}
+
 
 // Fault is the injected fault of a run.
 type Fault struct {
@@ -193,7 +214,7 @@ func (g *genCtx) exitChain() Node {
 		g.nextID++
 		bottom = Node{K: "ret", ID: g.nextID, Name: name}
 	}
-	kinds := []string{"let", "when", "unless", "cond", "seq", "uwp", "lock", "file", "ignore", "recover", "dolist", "dotimes", "do", "prog", "lambda", "send", "block", "tagbody"}
+	kinds := append(append([]string{"uwp", "lock", "file", "ignore", "recover", "block", "tagbody", "uwp", "lock", "file", "ignore", "recover", "block", "tagbody"}, plainKinds...), loopKinds...)
 	cur := bottom
 	for d, n := 0, 1+g.r.Intn(4); d < n; d++ {
 		g.nextID++
@@ -208,8 +229,8 @@ func (g *genCtx) exitChain() Node {
 				w.Direct = g.r.Pct(50)
 				defer func(mx int) { g.held[mx] = false }(w.Mx)
 			}
-		case "prog", "tagbody":
-			w.Tags = w.K == "prog"
+		case "prog", "progstar", "tagbody":
+			w.Tags = w.K != "tagbody"
 			w.Sym = g.r.Pct(40)
 		case "file":
 			g.files++
@@ -256,6 +277,12 @@ func (g *genCtx) node(depth int) Node {
 			n.Kids = g.kids(depth-1, 1)
 		} else {
 			n.Kids = g.kids(depth-1, 2)
+			if g.r.Pct(20) {
+				// one more kid among the cleanup forms: an exit taken there
+				// replaces the one in progress and skips the later cleanup forms
+				n.CKid = true
+				n.Kids = append(n.Kids, g.node(depth-1))
+			}
 		}
 		return n
 	case x < 34:
@@ -295,18 +322,29 @@ func (g *genCtx) node(depth int) Node {
 	case x < 71:
 		return Node{K: "recover", ID: id, Kids: g.kids(depth-1, 2)}
 	default:
-		k := []string{"seq", "let", "when", "unless", "cond", "dolist", "dotimes", "do", "prog", "lambda", "send"}[g.r.Intn(11)]
+		var k string
+		if g.r.Pct(36) {
+			k = loopKinds[g.r.Intn(len(loopKinds))]
+		} else {
+			k = plainKinds[g.r.Intn(len(plainKinds))]
+		}
 		if loopKind(k) {
 			// the loop establishes a nil block: (return v) leaves it; its
 			// body is an implicit tagbody
 			g.blocks = append(g.blocks, "nil")
 			n := Node{K: k, ID: id}
-			if k == "prog" || g.r.Pct(35) {
+			if k != "loop" && (k == "prog" || k == "progstar" || g.r.Pct(35)) {
 				n.Tags = true
 				n.Sym = g.r.Pct(40)
 				g.taggedKids(&n, depth, 2+g.r.Intn(2))
 			} else {
 				n.Kids = g.kids(depth-1, 2)
+				if (k == "dolist" || k == "dotimes" || k == "do" || k == "dostar" || k == "dovector") && g.r.Pct(30) {
+					// one more kid as the result form of the loop (inside the
+					// nil block, outside the body)
+					n.ResKid = true
+					n.Kids = append(n.Kids, g.node(depth-1))
+				}
 			}
 			g.blocks = g.blocks[:len(g.blocks)-1]
 			return n
@@ -449,8 +487,55 @@ func (n *Node) render(dir string, b *strings.Builder) {
 		fmt.Fprintf(b, "(unless nil %s)", all())
 	case "cond":
 		fmt.Fprintf(b, "(cond (nil 'no) (t %s))", all())
-	case "dolist", "dotimes", "do", "prog":
+	case "case":
+		fmt.Fprintf(b, "(case 1 (2 'no) (1 %s))", all())
+	case "ecase":
+		fmt.Fprintf(b, "(ecase 1 ((2 3) 'no) ((1 4) %s))", all())
+	case "casedef":
+		fmt.Fprintf(b, "(case 5 (1 'no) (%s %s))", []string{"t", "otherwise"}[n.ID%2], all())
+	case "typecase":
+		fmt.Fprintf(b, "(typecase 1 (string 'no) (fixnum %s))", all())
+	case "etypecase":
+		fmt.Fprintf(b, "(etypecase \"s\" (fixnum 'no) (string %s))", all())
+	case "progv":
+		fmt.Fprintf(b, "(progv '(c07-pv%d) '(1) %s)", n.ID, all())
+	case "wots":
+		fmt.Fprintf(b, "(with-output-to-string (ws%d) %s)", n.ID, all())
+	case "wifs":
+		fmt.Fprintf(b, "(with-input-from-string (ws%d \"abc\") %s)", n.ID, all())
+	case "wifo":
+		fmt.Fprintf(b, "(with-input-from-octets (ws%d \"abc\") %s)", n.ID, all())
+	case "wos":
+		fmt.Fprintf(b, "(with-open-stream (ws%d (make-string-input-stream \"abc\")) %s)", n.ID, all())
+	case "letstar":
+		fmt.Fprintf(b, "(let* ((v%d 1) (w%d v%d)) %s)", n.ID, n.ID, n.ID, all())
+	case "mvb":
+		fmt.Fprintf(b, "(multiple-value-bind (v%d w%d) (values 1 2) %s)", n.ID, n.ID, all())
+	case "or":
+		fmt.Fprintf(b, "(or nil %s)", all())
+	case "and":
+		fmt.Fprintf(b, "(and t %s)", all())
+	case "prog1":
+		fmt.Fprintf(b, "(prog1 %s)", all())
+	case "prog2":
+		fmt.Fprintf(b, "(prog2 'first %s)", all())
+	case "mvp1":
+		fmt.Fprintf(b, "(multiple-value-prog1 %s)", all())
+	case "wslots":
+		fmt.Fprintf(b, "(with-slots (a) c07-inst %s)", all())
+	case "loop":
+		fmt.Fprintf(b, "(let ((lv%d (loop %s (return 'lp)))) (sim-emit \"bend\" \"nil\" lv%d) lv%d)", n.ID, all(), n.ID, n.ID)
+	case "dolist", "dotimes", "do", "prog", "dostar", "progstar", "dovector":
 		body := all()
+		res := ""
+		if n.ResKid && !n.Tags && len(n.Kids) > 1 {
+			var parts []string
+			for i := 0; i < len(n.Kids)-1; i++ {
+				parts = append(parts, kid(i))
+			}
+			body = seq(parts)
+			res = " " + kid(len(n.Kids)-1)
+		}
 		if n.Tags {
 			var parts []string
 			for i := range n.Kids {
@@ -461,14 +546,24 @@ func (n *Node) render(dir string, b *strings.Builder) {
 			}
 			body = seq(parts)
 		}
-		head := fmt.Sprintf("dolist (e%d '(1 2))", n.ID)
+		head := fmt.Sprintf("dolist (e%d '(1 2)%s)", n.ID, res)
 		switch n.K {
 		case "dotimes":
-			head = fmt.Sprintf("dotimes (i%d 2)", n.ID)
-		case "do":
-			head = fmt.Sprintf("do ((dv%d 0 (1+ dv%d))) ((>= dv%d 2) 'done)", n.ID, n.ID, n.ID)
+			head = fmt.Sprintf("dotimes (i%d 2%s)", n.ID, res)
+		case "dovector":
+			head = fmt.Sprintf("dovector (e%d (vector 1 2)%s)", n.ID, res)
+		case "do", "dostar":
+			if res == "" {
+				res = " 'done"
+			}
+			head = fmt.Sprintf("do ((dv%d 0 (1+ dv%d)) (dw%d 5)) ((>= dv%d 2)%s)", n.ID, n.ID, n.ID, n.ID, res)
+			if n.K == "dostar" {
+				head = "do*" + head[2:]
+			}
 		case "prog":
 			head = fmt.Sprintf("prog ((pv%d 1))", n.ID)
+		case "progstar":
+			head = fmt.Sprintf("prog* ((pv%d 1) (pw%d pv%d))", n.ID, n.ID, n.ID)
 		}
 		fmt.Fprintf(b, "(let ((lv%d (%s %s))) (sim-emit \"bend\" \"nil\" lv%d) lv%d)", n.ID, head, body, n.ID, n.ID)
 	case "lambda":
@@ -508,6 +603,14 @@ func (n *Node) render(dir string, b *strings.Builder) {
 				pre, form = fmt.Sprintf("(sim-emit \"signal\" \"%s\") ", k.Name), errForm(k.Name)
 			}
 			fmt.Fprintf(b, "(progn %s(sim-emit \"enter-d\" %d) (unwind-protect %s (sim-emit \"cleanup\" %d) (sim-emit \"cleanup2\" %d)%s))", pre, n.ID, form, n.ID, n.ID, cerr)
+			break
+		}
+		if n.CKid && len(n.Kids) > 1 {
+			var parts []string
+			for i := 0; i < len(n.Kids)-1; i++ {
+				parts = append(parts, kid(i))
+			}
+			fmt.Fprintf(b, "(unwind-protect (progn (sim-emit \"enter\" %d) %s) (sim-emit \"cleanup\" %d) %s (sim-emit \"cleanup3\" %d)%s)", n.ID, seq(parts), n.ID, kid(len(n.Kids)-1), n.ID, cerr)
 			break
 		}
 		// two cleanup forms: the second must follow the first, once
@@ -558,7 +661,7 @@ func errForm(kind string) string {
 
 func (c *Case) source(dir string) string {
 	var b strings.Builder
-	b.WriteString("(progn (unless (boundp 'c07-caller) (defflavor c07-caller-flavor () ()) (defmethod (c07-caller-flavor :call) (f) (funcall f 1)) (defvar c07-caller (make-instance 'c07-caller-flavor)))\n")
+	b.WriteString("(progn (unless (boundp 'c07-caller) (defflavor c07-caller-flavor () ()) (defmethod (c07-caller-flavor :call) (f) (funcall f 1)) (defvar c07-caller (make-instance 'c07-caller-flavor)) (defclass c07-cls () ((a :initform 1))) (defvar c07-inst (make-instance 'c07-cls)))\n")
 	b.WriteString("(let (")
 	for i := 0; i < c.Mutexes; i++ {
 		fmt.Fprintf(&b, "(m%d (make-mutex)) ", i)
@@ -779,6 +882,10 @@ func (c *Case) judge(out runOut, f *Fault) *harness.Violation {
 	lastSignal := ""
 	wrote := map[string]int{}
 	interrupted := false
+	// a kid among the cleanup forms emits ordinary markers while an exit is
+	// on its way: the marker-order rules below do not apply to such a
+	// program (the reference evaluator judges it)
+	structural := !hasCKid(&c.Prog)
 	for _, m := range out.marks {
 		fs := strings.Fields(m.text)
 		if m.task != 0 {
@@ -797,6 +904,9 @@ func (c *Case) judge(out runOut, f *Fault) *harness.Violation {
 			if inDirect[mx] && !(fs[0] == "cs-left" && fs[1] == mx) {
 				return viol("mutual-exclusion", "%s: the observer of mutex %s ran while the body of with-mutex-lock on it was still running (%q came after it); trace: %s", what, mx, m.text, trace(out.marks))
 			}
+		}
+		if !structural {
+			pendingRet, pendingGo = "", ""
 		}
 		if pendingRet != "" {
 			// Exit transfer (first sentence of C07): between a return-from and
@@ -957,6 +1067,18 @@ func (c *Case) judge(out runOut, f *Fault) *harness.Violation {
 	}
 	_ = interrupted
 	return nil
+}
+
+func hasCKid(n *Node) bool {
+	if n.CKid {
+		return true
+	}
+	for i := range n.Kids {
+		if hasCKid(&n.Kids[i]) {
+			return true
+		}
+	}
+	return false
 }
 
 func atoi(s string) int {
@@ -1149,8 +1271,12 @@ func (e *engine) Shrink(raw json.RawMessage) (out []json.RawMessage) {
 			// replace the node by one of its kids (only for transparent forms)
 			if len(path) > 0 || true {
 				switch n.K {
-				case "seq", "let", "when", "unless", "cond", "dolist", "dotimes", "do", "prog", "lambda", "send", "ignore", "recover", "uwp", "lock", "file", "block":
+				case "ignore", "recover", "uwp", "lock", "file", "block":
 					emit(replace(path, cloneNode(n.Kids[i])))
+				default:
+					if contains(plainKinds, n.K) || loopKind(n.K) {
+						emit(replace(path, cloneNode(n.Kids[i])))
+					}
 				}
 			}
 			if len(n.Kids) > 1 {
